@@ -583,6 +583,13 @@ int __wrap_fcntl(int fd, int cmd, ...)
     case F_SETFL: f->nonblock = (arg & O_NONBLOCK) ? 1 : 0; sk_logev(LK_FCNTL, fd, cmd, arg, 0); return 0;
     case F_DUPFD: return do_dupfd(fd, arg, 0);
     case F_DUPFD_CLOEXEC: return do_dupfd(fd, arg, 1);
+#ifdef F_SETPIPE_SZ
+    /* the capacity of a pipe is what it is: an unprivileged process that asks for more than the system's maximum (here: the
+       capacity every pipe has) is refused, asking for less changes nothing */
+    case F_GETPIPE_SZ: { struct sk_obj *o = &K->obj[f->obj]; if (o->kind != OK_PIPE) { errno = EBADF; return -1; } return o->cap; }
+    case F_SETPIPE_SZ: { struct sk_obj *o = &K->obj[f->obj]; if (o->kind != OK_PIPE) { errno = EBADF; return -1; }
+                         if (arg > o->cap) { errno = EPERM; return -1; } return o->cap; }
+#endif
   }
   sk_mon(MON_UNSUPPORTED, LK_FCNTL, cmd);
   errno = EINVAL;
@@ -617,8 +624,9 @@ int __wrap_open(const char *path, int flags, ...)
   } else {
     int fl = fs_lookup(path);
     if (fl & FS_NOACCESS) { errno = EACCES; return -1; }
-    if (fl & FS_DIR) { errno = EISDIR; return -1; }
+    if ((fl & FS_DIR) && acc != 0) { errno = EISDIR; return -1; }   /* (a directory can be opened for reading: fchdir, O_DIRECTORY) */
     if (!(fl & FS_EXISTS) && !(flags & O_CREAT)) { errno = ENOENT; return -1; }
+    if ((flags & O_DIRECTORY) && !(fl & FS_DIR)) { errno = ENOTDIR; return -1; }
     if (!(fl & FS_EXISTS) && path[0] == '/' && strncmp(path, "/nodir/", 7) == 0) { errno = ENOENT; return -1; }
     obj = sk_new_obj(OK_FILE, 0);
     K->obj[obj].pathid = sk_str(path);
@@ -824,6 +832,12 @@ pid_t __wrap_waitpid(pid_t pid, int *status, int options)
   struct sk_proc *c = &K->proc[pi];
   int first = 1;
   while (c->state != PS_ZOMBIE) {
+    if ((options & WUNTRACED) && c->state == PS_RUNNING && c->stopped == 1) {   /* a stopped child, asked for: reported once, nothing is reaped */
+      c->stopped = 2;
+      if (status) *status = 0x7f | (SIGSTOP << 8);
+      sk_logev(LK_WAITPID, pid, options, 0, 0);
+      return pid;
+    }
     if (options & WNOHANG) { sk_logev(LK_WAITPID, pid, options, 0, 0); return 0; }
     if (first) { K->blocks++; sk_logev(LK_BLOCK, LK_WAITPID, pid, 0, 0); first = 0; }
     block_on("waitpid");
@@ -923,6 +937,19 @@ int __wrap_chdir(const char *path)
   if (!(fl & FS_EXISTS)) { errno = ENOENT; return -1; }
   if (!(fl & FS_DIR)) { errno = ENOTDIR; return -1; }
   ME->cwd = sk_str(path);
+  sk_logev(LK_CHDIR, sk_cur, 0, 0, 0);
+  return 0;
+}
+
+int __wrap_fchdir(int fd)
+{
+  int e = fault(FK_CHDIR);
+  if (e) { errno = e; return -1; }
+  struct sk_proc *p = ME;
+  if (fd < 0 || fd >= SK_MAXFD || p->fd[fd].ofd < 0) { errno = EBADF; return -1; }
+  struct sk_obj *o = &K->obj[K->ofd[p->fd[fd].ofd].obj];
+  if (o->kind != OK_FILE || !(o->fsflags & FS_DIR)) { errno = ENOTDIR; return -1; }
+  p->cwd = o->abspath;
   sk_logev(LK_CHDIR, sk_cur, 0, 0, 0);
   return 0;
 }
